@@ -271,13 +271,15 @@ def run_check(pid, tier, seed, replay=None):
         # a code site that left the translated subset concerns the properties whose companion theorems / differential
         # tests use that site (their Lean modules stop building as well); for every other property it is a note
         import gencheck
-        mine = set(gencheck.GROUPS.get(pid, []))
+        mine = set(gencheck.GROUPS.get(pid, [])) | ({'maskPayloadShape'} if pid == 'C03' else set())   # mask.py belongs to C03
         for name, why in tr.get('fallbacks', []):
             (fallback_notes if name in mine else foreign_notes).append(
                 'code site %s could not be retranslated (%s): the definition last translated from the source is kept and tied to the current source by the differential test of generated definitions on this run' % (name, why))
         for p in tr['problems']:
             m = re.match(r'py2lean (\w+):', p)
             if m and m.group(1) not in mine:
+                foreign_notes.append(p)
+            elif p.startswith('mask.py') and pid != 'C03':
                 foreign_notes.append(p)
             else:
                 problems.append('translation: ' + p)
